@@ -236,7 +236,7 @@ type env struct {
 	cleanup func()
 }
 
-func newEnv(backend, scratch string, dirs, filesPer int) (*env, error) {
+func newEnv(backend, scratch string, dirs, filesPer, empties int) (*env, error) {
 	e := &env{backend: backend, cleanup: func() {}}
 	if backend == "os" {
 		d, err := os.MkdirTemp(scratch, "c09-")
@@ -254,6 +254,10 @@ func newEnv(backend, scratch string, dirs, filesPer int) (*env, error) {
 			_ = afero.WriteFile(e.base, filepath.Join(dir, fmt.Sprintf("f%02d.txt", f)), bytes.Repeat([]byte{byte('a' + f%26)}, 100+f), 0o644)
 		}
 	}
+	// a long run of entries that carry no file (in an archive: consecutive directory entries)
+	for d := 0; d < empties; d++ {
+		_ = e.base.MkdirAll(filepath.Join(e.root, "tree", "empties", fmt.Sprintf("e%03d", d)), 0o755)
+	}
 	_ = afero.WriteFile(e.base, filepath.Join(e.root, "big.bin"), source(3<<20), 0o644)
 	return e, nil
 }
@@ -262,6 +266,8 @@ type entryPoint struct {
 	name string
 	run  func(ctx context.Context, fs filesystem.FS, e *env) error
 	prep func(fs filesystem.FS, e *env) error // run ungated / uncounted before
+	// number of empty directories added to the tree
+	empties int
 }
 
 func entryPoints() []entryPoint {
@@ -299,7 +305,7 @@ func entryPoints() []entryPoint {
 		{name: "Zip", run: func(ctx context.Context, fs filesystem.FS, e *env) error {
 			return fs.ZipWithContext(ctx, tree(e), filepath.Join(e.root, "out.zip"))
 		}},
-		{name: "Unzip", prep: func(fs filesystem.FS, e *env) error { return fs.Zip(tree(e), filepath.Join(e.root, "in.zip")) },
+		{name: "Unzip", empties: 200, prep: func(fs filesystem.FS, e *env) error { return fs.Zip(tree(e), filepath.Join(e.root, "in.zip")) },
 			run: func(ctx context.Context, fs filesystem.FS, e *env) error {
 				_, err := fs.UnzipWithContext(ctx, filepath.Join(e.root, "in.zip"), filepath.Join(e.root, "unzipped"))
 				return err
@@ -332,7 +338,7 @@ func vfs(e *env, g *fsgate.Fs) filesystem.FS {
 // oneCancel runs entry point ep cancelling the context right after its k-th backend call (k < 0: before the call).
 func oneCancel(ep entryPoint, backend, scratch string, dirs, files, k int) (cancelEvent, error) {
 	ev := cancelEvent{Ev: "cancel", Entry: ep.name, Backend: backend, K: k, Pre: k < 0, Entries: dirs * files}
-	e, err := newEnv(backend, scratch, dirs, files)
+	e, err := newEnv(backend, scratch, dirs, files, ep.empties)
 	if err != nil {
 		return ev, err
 	}
